@@ -86,6 +86,18 @@ def mk_geom(spec, obj=None):
     if k == "int":
         n = spec[1]
         return G(spec, n, "(GId %s)" % cnat(n), "_DefaultGeometry1D", n, n, (n,), True, True, True, True)
+    if k == "sub1d":        # a user subclass of Continuous1D with nothing overridden: identity maps, but NOT of identity TYPE
+        n = spec[1]
+
+        class _MyContinuous1D(cg.Continuous1D):
+            pass
+        return G(spec, _MyContinuous1D(n), "(GId %s)" % cnat(n), "Continuous1D-subclass", n, n, (n,), True, True, True, True)
+    if k == "subimage":     # a user subclass of Image2D
+        r, c, o = spec[1], spec[2], spec[3]
+
+        class _MyImage2D(cg.Image2D):
+            pass
+        return G(spec, _MyImage2D((r, c), order=o), "(GImage %s %s %s)" % (cnat(r), cnat(c), "OC" if o == "C" else "OF"), "Image2D-subclass", r * c, r * c, (r, c), True, True, False, True)
     if k == "cont1d":
         n = spec[1]
         return G(spec, cg.Continuous1D(n), "(GId %s)" % cnat(n), "Continuous1D", n, n, (n,), True, True, True, True)
@@ -193,7 +205,7 @@ def build_testproblem(spec):
     with warnings.catch_warnings():
         warnings.simplefilter("ignore")
         if kind == "deconv1d":
-            psf = np.array(spec["PSF"], dtype=float) if isinstance(spec["PSF"], list) else spec["PSF"]
+            psf = np.array(spec["PSF"], dtype=(np.int64 if spec.get("psf_dtype") == "int" else float)) if isinstance(spec["PSF"], list) else spec["PSF"]
             kw = dict(dim=spec["dim"], PSF=psf, BC=spec["BC"], phantom=np.arange(spec["dim"], dtype=float), use_legacy=spec.get("legacy", False))
             if spec.get("PSF_param") is not None:
                 kw["PSF_param"] = spec["PSF_param"]
@@ -201,7 +213,7 @@ def build_testproblem(spec):
                 kw["PSF_size"] = spec["PSF_size"]
             return Deconvolution1D(**kw)
         if kind == "deconv2d":
-            psf = np.array(spec["PSF"], dtype=float) if isinstance(spec["PSF"], list) else spec["PSF"]
+            psf = np.array(spec["PSF"], dtype=(np.int64 if spec.get("psf_dtype") == "int" else float)) if isinstance(spec["PSF"], list) else spec["PSF"]
             kw = dict(dim=spec["dim"], PSF=psf, BC=spec["BC"], phantom=np.ones((spec["dim"], spec["dim"])))
             if not isinstance(spec["PSF"], list):
                 kw["PSF_size"] = spec["PSF_size"]
@@ -276,6 +288,16 @@ def impl_pair(kind, n, par=None):
         def unperm(y):
             z = np.zeros(n); z[idx] = y; return z
         return (lambda x: x[idx]), unperm, I[idx, :], False
+    if kind == "workbuffer":                    # fills and returns the SAME array object at every call (a pre-allocated work buffer)
+        Mw = np.array(par, dtype=float)
+        bufF, bufA = np.zeros(Mw.shape[0]), np.zeros(Mw.shape[1])
+        def fw(x):
+            bufF[:] = Mw @ x
+            return bufF
+        def aw(y):
+            bufA[:] = Mw.T @ y
+            return bufA
+        return fw, aw, Mw, "outputs-alias"
     if kind == "inplace_scale":                 # modifies its argument and returns it
         c = float(par)
         def f(x):
@@ -399,7 +421,7 @@ def build_model(meta):
             raise ValueError("defining matrix of %s does not match the stored one" % (ms["impl"],))
         mod = LinearModel(fwd, adj, R.obj, D.obj)
         coq = "(fun_model %s %s %s %s)" % (cnat(A.shape[1]), enc_mat(A), D.coq, R.coq)
-        return M(mod, coq, D, R, backing, exact, D.par_dim, R.par_dim, {"impl": ms["impl"], "mutates": mutates})
+        return M(mod, coq, D, R, backing, exact, D.par_dim, R.par_dim, {"impl": ms["impl"], "mutates": mutates is True, "outputs_alias": mutates == "outputs-alias"})
     if backing == "function":
         shpD, shpR = D.fun_shape, R.fun_shape
         lay = out_layout(ms.get("out_layout"))
@@ -442,7 +464,7 @@ class Alias:
         return None
 
 
-def call_vec(f, v, al=None, label="", mutates=False):
+def call_vec(f, v, al=None, label="", mutates=False, keep_out=True):
     """apply a forward/adjoint-like callable; returns list of floats, or None if it raises / returns a non-vector"""
     try:
         arr = np.array(v, dtype=float)
@@ -450,7 +472,8 @@ def call_vec(f, v, al=None, label="", mutates=False):
             warnings.simplefilter("ignore")
             raw = f(arr)
         if al is not None:
-            al.keep("the result of %s" % label, raw)
+            if keep_out:
+                al.keep("the result of %s" % label, raw)
             if not mutates:
                 al.keep("the array passed to %s" % label, arr, snap=v)
         out = np.asarray(raw, dtype=float)
@@ -553,17 +576,31 @@ def observe(m, meta):
     # the map between parameters (identity geometries) or was assembled from forward
     o["gm_fixed"] = hasattr(mod, "_par_matrix")
     o["as_is"] = (not o["gm_fixed"]) or m.backing == "function" or meta["model"].get("tp") == "deconv2d" or (m.D.ident and m.R.ident)
-    cv = lambda f, v, label: call_vec(f, v, al, label, mut)
+    cv = lambda f, v, label: call_vec(f, v, al, label, mut, not m.info.get("outputs_alias"))
     if op == "fa":
         o["fx"] = cv(mod.forward, x, "forward(x)")
         o["ay"] = cv(mod.adjoint, y, "adjoint(y)")
         if not mut:
             o["styles"] = observe_styles(mod, x, y)
+            o["reuse"] = observe_reuse(m, mod, x, y)
     elif op == "gm":
         o["G"] = call_mat(mod.get_matrix, al, "get_matrix()")
         o["fx"] = cv(mod.forward, x, "forward(x)")
         o["cols"] = [cv(mod.forward, [1.0 if i == j else 0.0 for i in range(m.D.par_dim)], "forward(e_%d)" % j) for j in range(m.D.par_dim)]
         o["G2"] = call_mat(mod.get_matrix, al, "the second get_matrix()")       # cached second call
+        # a second instance: model(distribution) is a shallow copy whose input is renamed after the distribution -- named like attributes /
+        # arguments of the model on purpose; it is used (and its geometry re-assigned) while the original is alive and evaluated afterwards
+        try:
+            import cuqi
+            nm = ["y", "wrt", "direction", "geometry", "forward", "x"][len(x) % 6]
+            m2 = mod(cuqi.distribution.Gaussian(np.zeros(m.D.par_dim), 1, name=nm))
+            o["copy_name"] = nm
+            o["copy_fx"] = call_vec(lambda a: m2.forward(**{nm: a}), x, al, "copy.forward(%s=x)" % nm, mut, not m.info.get("outputs_alias"))
+            o["copy_G"] = call_mat(m2.get_matrix, al, "copy.get_matrix()")
+            m2.domain_geometry = cuqi.geometry.Discrete(["z%d" % i for i in range(m.D.par_dim)])     # the COPY's geometry: must not reach the original
+            m2._matrix = None
+        except Exception as e:
+            o["copy_fx"], o["copy_G"], o["copy_name"] = "raised " + type(e).__name__, None, None
     elif op in ("T", "T_after_gm"):
         if op == "T_after_gm":
             call_mat(mod.get_matrix, al, "get_matrix() before T")
@@ -581,6 +618,8 @@ def observe(m, meta):
         if T is not None:
             o["Tf"] = cv(T.forward, y, "T.forward(y)")
             o["Ta"] = cv(T.adjoint, x, "T.adjoint(x)")
+            if m.D.idtype and m.R.idtype:
+                o["Tg"] = call_vec(lambda a: T.gradient(a, np.zeros(m.R.par_dim)), x, al, "T.gradient(x, wrt)", mut, not m.info.get("outputs_alias"))
             o["TG"] = call_mat(T.get_matrix, al, "T.get_matrix()")
             o["G"] = call_mat(mod.get_matrix, al, "get_matrix() after T")
             o["geoms_swapped"] = (T.domain_geometry is mod.range_geometry) and (T.range_geometry is mod.domain_geometry)
@@ -624,7 +663,30 @@ def observe_grad(m, meta):
     o["g_fun"] = call(lambda: mod.gradient(fd.copy(), arr(x), is_direction_par=False))
     o["ay"] = call_vec(mod.adjoint, d)
     o["fx"] = call_vec(mod.forward, x)
+    # ... and again after the object has been used: forward, adjoint, get_matrix, T, a gradient call that is refused for another reason
+    call_mat(mod.get_matrix)
+    try:
+        mod.T.forward(arr(d))
+    except Exception:
+        pass
+    call(lambda: mod.gradient(Samples_of(arr(d)), arr(x)))          # Samples are refused by gradient: a refused call in the history
+    o["g_later"] = call(lambda: mod.gradient(arr(d), arr(x)))
+    # the range geometry re-assigned to a one-node step expansion (not of identity type): must be refused from now on, and accepted again after
+    # the original geometry is put back
+    if m.R.idtype and len(m.R.fun_shape) == 1:
+        import cuqi
+        old_geom = mod.range_geometry
+        k = m.R.par_dim
+        mod.range_geometry = cuqi.geometry.StepExpansion(np.arange(k) if k > 1 else np.array([0.0, 1.0])[:1], n_steps=k) if k > 1 else old_geom
+        o["g_reassigned"] = call(lambda: mod.gradient(arr(d), arr(x))) if k > 1 else None
+        mod.range_geometry = old_geom
+        o["g_restored"] = call(lambda: mod.gradient(arr(d), arr(x)))
     return o
+
+
+def Samples_of(v):
+    from cuqi.samples import Samples
+    return Samples(np.column_stack([v, v]))
 
 
 def grad_oracle(m, meta, o):
@@ -632,6 +694,12 @@ def grad_oracle(m, meta, o):
     d, x = meta["y"], meta["x"]
     g = o["g"]["val"]
     sig = "LinearModel.gradient|%s->%s,%s" % (m.D.family + ("+gradient" if m.D.userg else ""), m.R.family, m.backing)
+    for key, what in (("g_later", "after forward/adjoint/get_matrix/T/a refused call"), ("g_restored", "after the range geometry was re-assigned and put back")):
+        if key in o and not ((o[key]["val"] is None and g is None) or same_vec(o[key]["val"], g, ex)):
+            return ("gradient(direction, wrt) = %s on the fresh model but %s %s" % (g, o[key]["val"], what), sig + "|life-cycle")
+    if o.get("g_reassigned") is not None and o["g_reassigned"]["val"] is not None:
+        return ("gradient is refused for a StepExpansion range on a fresh model but returns %s after model.range_geometry was re-assigned to one" % (o["g_reassigned"]["val"],),
+                sig + "|life-cycle")
     if g is None:
         return (None, "")            # refused: which configurations are refused is compared with the model (DECISION)
     if not isinstance(g, list):
@@ -657,18 +725,24 @@ def grad_coq_expr(m, meta, o):
     if any(isinstance(o[k]["val"], str) for k in ("g", "g_wrt2", "g_kw", "g_cuqi", "g_fun")):
         return "false"
     dv = "(V1 %s)" % enc_vec(meta["y"])
-    parts = ["check_gradient %s %s false %s %s %s" % (t, ug, m.coq, dv, enc_opt(o[k]["val"], enc_vec)) for k in ("g", "g_wrt2", "g_kw", "g_cuqi")]
+    if any(k in o and o[k] is not None and isinstance(o[k]["val"], str) for k in ("g_later", "g_restored", "g_reassigned")):
+        return "false"
+    parts = ["check_gradient %s %s false %s %s %s" % (t, ug, m.coq, dv, enc_opt(o[k]["val"], enc_vec)) for k in ("g", "g_wrt2", "g_kw", "g_cuqi", "g_later", "g_restored") if k in o]
+    if o.get("g_reassigned") is not None:
+        ones = clist([cnat(1)] * m.R.par_dim)
+        parts.append("check_gradient %s %s false (let m0 := %s in mkLM (lm_fwd m0) (lm_adj m0) (lm_mat m0) (lm_D m0) (GStep %s)) %s %s"
+                     % (t, ug, m.coq, ones, dv, enc_opt(o["g_reassigned"]["val"], enc_vec)))
     parts.append("check_gradient %s %s true %s (funval %s %s) %s" % (t, ug, m.coq, m.R.coq, enc_vec(o["d_fun"]), enc_opt(o["g_fun"]["val"], enc_vec)))
     return " && ".join(parts)
 
 
 REPS = ["arr_par", "arr_fun", "arr_fun_F", "arr_fun_strided", "cuqi_par", "cuqi_fun", "cuqi_fun_F", "cuqi_par_eq", "cuqi_fun_eq", "cuqi_sub", "cuqi_other",
-        "samples_par", "samples_fun"]
+        "cuqi_par_int", "samples_par", "samples_fun", "samples_par_1", "samples_fun_1", "samples_sub"]
 COQ_REP = {"arr_par": "RArrayPar", "arr_fun": "RArrayFun", "cuqi_par": "RCuqiPar", "cuqi_fun": "RCuqiFun", "cuqi_other": "RCuqiOther",
            "cuqi_par_eq": "RCuqiPar", "cuqi_fun_eq": "RCuqiFun",      # an equal geometry that is another object
            "arr_fun_F": "RArrayFun", "arr_fun_strided": "RArrayFun", "cuqi_fun_F": "RCuqiFun",   # function values in Fortran order / as a strided window
            "cuqi_sub": "RCuqiPar",                                    # an instance of a user subclass of CUQIarray
-           "samples_par": "RArrayPar", "samples_fun": "RArrayFun"}
+           "cuqi_par_int": "RCuqiPar", "samples_par": "RArrayPar", "samples_fun": "RArrayFun", "samples_par_1": "RArrayPar", "samples_fun_1": "RArrayFun", "samples_sub": "RArrayPar"}
 
 
 def observe_reps(m, meta):
@@ -713,6 +787,16 @@ def observe_reps(m, meta):
                         out = fn(_MyArray(np.array(v, dtype=float), is_par=True, geometry=gin))
                     elif rep == "cuqi_other":
                         out = fn(CUQIarray(np.array(v, dtype=float), is_par=True, geometry=Discrete(["v%d" % i for i in range(len(v))])))
+                    elif rep == "cuqi_par_int":
+                        out = fn(CUQIarray(np.array(v, dtype=np.int64), is_par=True, geometry=gin))
+                    elif rep == "samples_par_1":      # exactly one sample: a trailing axis of length 1
+                        out = fn(Samples(np.array(v, dtype=float)[:, None], geometry=gin))
+                    elif rep == "samples_fun_1":
+                        out = fn(Samples(fv[..., None].copy(), geometry=gin, is_par=False), is_par=False)
+                    elif rep == "samples_sub":
+                        class _MySamples(Samples):
+                            pass
+                        out = fn(_MySamples(np.column_stack([v, v2]).astype(float), geometry=gin))
                     elif rep == "samples_par":
                         out = fn(Samples(np.column_stack([v, v2]).astype(float), geometry=gin))
                     else:
@@ -740,11 +824,11 @@ def rep_oracle(m, meta, o):
             r = o[side + "_" + rep]
             if r == "skipped":
                 continue
-            want = "Samples" if rep.startswith("samples") else ("CUQIarray" if rep.startswith("cuqi") else "ndarray")   # a subclass instance comes back as a plain CUQIarray
+            want = ("_MySamples" if rep == "samples_sub" and False else "Samples") if rep.startswith("samples") else ("CUQIarray" if rep.startswith("cuqi") else "ndarray")   # a subclass instance comes back as a plain CUQIarray
             ref = [base, None] if rep.startswith("samples") else base
             got = r["val"]
             if rep.startswith("samples"):
-                ok = isinstance(got, list) and len(got) == 2 and (base is None or same_vec(got[0], base, ex))
+                ok = isinstance(got, list) and len(got) == (1 if rep.endswith("_1") else 2) and (base is None or same_vec(got[0], base, ex))
             else:
                 ok = (got is None and base is None) or same_vec(got, base, ex)
             if not ok:
@@ -779,7 +863,7 @@ def rep_coq_expr(m, meta, o):
             ins = fun if "_fun" in rep else par
             if rep.startswith("samples"):
                 obs = "None" if r["val"] is None else "(Some %s)" % clist([enc_vec(c) for c in r["val"]])
-                parts.append("%s_samples %s %s %s %s %s" % (chk, t, m.coq, COQ_REP[rep], clist(ins), obs))
+                parts.append("%s_samples %s %s %s %s %s" % (chk, t, m.coq, COQ_REP[rep], clist(ins[:1] if rep.endswith("_1") else ins), obs))
             else:
                 parts.append("%s_rep %s %s %s %s %s" % (chk, t, m.coq, COQ_REP[rep], ins[0], enc_opt(r["val"], enc_vec)))
                 if r["val"] is not None:
@@ -822,6 +906,32 @@ def observe_styles(mod, x, y):
     return out
 
 
+def second_vec(v):
+    return [float(1 - t) for t in reversed(v)]
+
+
+def observe_reuse(m, mod, x, y):
+    """aliasing over time: the caller keeps ONE array object and overwrites it in place between calls (x_buf[:] = ...); nothing the model
+    retained from the first call may leak into the second, and the first result must stay what it was (unless the user callable itself hands out views)"""
+    out = {}
+    for nm, f, v in (("forward", mod.forward, x), ("adjoint", mod.adjoint, y)) + ((("gradient", lambda d: mod.gradient(d, np.zeros(m.D.par_dim)), y),) if (m.D.idtype and m.R.idtype) else ()):
+        v2 = second_vec(v)
+        try:
+            with warnings.catch_warnings():
+                warnings.simplefilter("ignore")
+                buf = np.array(v, dtype=float)
+                r1 = f(buf)
+                r1s = np.array(r1, dtype=float).copy()
+                buf[:] = v2
+                r2 = np.array(f(buf), dtype=float).copy()
+                r1_after = np.array(r1, dtype=float).copy()
+                fresh = np.array(f(np.array(v2, dtype=float)), dtype=float).copy()
+            out[nm] = {"first": r1s.ravel().tolist(), "first_later": r1_after.ravel().tolist(), "second": r2.ravel().tolist(), "second_fresh": fresh.ravel().tolist()}
+        except Exception as e:
+            out[nm] = {"raised": type(e).__name__}
+    return out
+
+
 def call_vec_raw(f, arr):
     try:
         with warnings.catch_warnings():
@@ -852,6 +962,15 @@ def property_oracle(m, meta, o):
     if detail:
         return (detail, sig)
     if op == "fa":
+        for nm, r in (o.get("reuse") or {}).items():
+            if "raised" in r:
+                continue
+            if r["second"] != r["second_fresh"]:
+                return ("%s on an input buffer that was overwritten in place since the previous call gives %s, on a fresh array with the same values %s"
+                        % (nm, r["second"], r["second_fresh"]), "LinearModel.%s|reused-input-buffer" % nm)
+            if r["first"] != r["first_later"] and not m.info.get("impl"):
+                return ("the result of the first %s call changed from %s to %s when the caller overwrote its own input array and called again"
+                        % (nm, r["first"], r["first_later"]), "LinearModel.%s|result-aliases-later-input" % nm)
         for key, val in (o.get("styles") or {}).items():
             ref = o["fx"] if key.startswith("forward") else o["ay"]
             if key.endswith("float32") and not ex and isinstance(ref, list) and isinstance(val, list) and len(val) == len(ref):
@@ -890,6 +1009,11 @@ def property_oracle(m, meta, o):
             return ("get_matrix() = %s is not the defining matrix %s of the function pair" % (Gm, meta["model"]["A"]), sig)
         if not same_mat(o["G2"], Gm, True):
             return ("second get_matrix() call returns another matrix", sig)
+        if "copy_fx" in o and isinstance(o["fx"], list):
+            if not same_vec(o["copy_fx"], o["fx"], ex):
+                return ("model(distribution named %r).forward(%s=x) = %s but forward(x) = %s" % (o["copy_name"], o["copy_name"], o["copy_fx"], o["fx"]), "LinearModel.forward|renamed-copy")
+            if not same_mat(o["copy_G"], Gm, ex):
+                return ("get_matrix() of the renamed copy differs from get_matrix() of the model", "LinearModel.get_matrix|renamed-copy")
         return (None, "")
     if op in ("T", "T_after_gm"):
         fam = nonidem_family(m)
@@ -902,6 +1026,8 @@ def property_oracle(m, meta, o):
             return ("T.forward(y) = %s but adjoint(y) = %s" % (o["Tf"], o["ay"]), sig)
         if not same_vec(o["Ta"], o["fx"], ex):
             return ("T.adjoint(x) = %s but forward(x) = %s" % (o["Ta"], o["fx"]), sig)
+        if "Tg" in o and not same_vec(o["Tg"], o["fx"], ex):
+            return ("T.gradient(x, wrt) = %s but forward(x) = %s (the gradient of the transposed model is its adjoint = forward)" % (o["Tg"], o["fx"]), "LinearModel.gradient|on-T")
         if not same_vec(o["TTf"], o["fx"], ex):
             return ("T.T.forward(x) = %s but forward(x) = %s" % (o["TTf"], o["fx"]), sig)
         if o["G"] is None or o["TG"] is None or not same_mat(o["TG"], transpose(o["G"], m.D.par_dim), ex):
@@ -932,7 +1058,7 @@ def coq_expr(m, meta, o):
     x, y = meta["x"], meta["y"]
     t = ctol(m.exact)
     op = meta["op"]
-    if any(isinstance(v, str) for k, v in o.items() if k != "alias"):
+    if any(isinstance(v, str) for k, v in o.items() if k not in ("alias", "copy_name")):
         return "false"      # the model has no non-vector results: any such output is a disagreement
     ev = lambda v: enc_opt(v, enc_vec)
     em = lambda v: enc_opt(v, enc_mat)
@@ -940,7 +1066,10 @@ def coq_expr(m, meta, o):
         return "check_forward %s %s %s %s && check_adjoint %s %s %s %s" % (t, m.coq, enc_vec(x), ev(o["fx"]), t, m.coq, enc_vec(y), ev(o["ay"]))
     ai = cbool(o["as_is"])
     if op == "gm":
-        return "check_get_matrix_gen %s %s %s %s && check_get_matrix_gen %s %s (after_get_matrix_gen %s %s) %s" % (t, ai, m.coq, em(o["G"]), t, ai, ai, m.coq, em(o["G2"]))
+        e = "check_get_matrix_gen %s %s %s %s && check_get_matrix_gen %s %s (after_get_matrix_gen %s %s) %s" % (t, ai, m.coq, em(o["G"]), t, ai, ai, m.coq, em(o["G2"]))
+        if "copy_fx" in o:      # the renamed shallow copy is the same model
+            e += " && check_forward %s %s %s %s && check_get_matrix_gen %s %s (after_get_matrix_gen %s %s) %s" % (t, m.coq, enc_vec(x), ev(o["copy_fx"]), t, ai, ai, m.coq, em(o["copy_G"]))
+        return e
     base = m.coq if op == "T" else "(after_get_matrix_gen %s %s)" % (ai, m.coq)
     u = cbool(o.get("T_underlying", False))
     T = "(lmT_gen %s %s %s)" % (u, cnat(m.ncols_T), base)
@@ -951,6 +1080,8 @@ def coq_expr(m, meta, o):
              "check_get_matrix_gen %s %s %s %s" % (t, ai, T, em(o["TG"])),
              "check_forward %s (lmT_gen %s %s %s) %s %s" % (t, u, cnat(m.nrows_T), T, enc_vec(x), ev(o["TTf"])),
              cbool(o.get("geoms_swapped", False))]
+    if "Tg" in o:
+        parts.append("check_gradient %s None false %s (V1 %s) %s" % (t, T, enc_vec(x), ev(o["Tg"])))
     return " && ".join(parts)
 
 
@@ -994,6 +1125,72 @@ def tp_dims(spec):
             nm = fp.get("num_modes")
             return (n if nm is None or nm > n else nm), n
     return n, n
+
+
+@guarded
+def argname_case(meta, cell):
+    """a function pair whose forward argument carries a name that also is an argument / attribute name inside the model's methods"""
+    from cuqi.model import LinearModel
+    ms, nm, x, y = meta["model"], meta["name"], meta["x"], meta["y"]
+    A = np.array(ms["A"], dtype=float)
+    ns = {}
+    exec("def fwd(%s):\n    return A @ %s\ndef adj(%s_adj):\n    return A.T @ %s_adj" % (nm, nm, nm, nm), {"A": A}, ns)
+    D, R = mk_geom(ms["D"]), mk_geom(ms["R"])
+    mod = LinearModel(ns["fwd"], ns["adj"], R.obj, D.obj)
+    m = M(mod, "(fun_model %s %s %s %s)" % (cnat(A.shape[1]), enc_mat(A), D.coq, R.coq), D, R, "function", True, D.par_dim, R.par_dim)
+    o = {"fx": call_vec(mod.forward, x), "fx_kw": call_vec(lambda a: mod.forward(**{nm: a}), x), "ay": call_vec(mod.adjoint, y),
+         "G": call_mat(mod.get_matrix), "Tf": call_vec(lambda a: mod.T.forward(a), y), "g": call_vec(lambda a: mod.gradient(a, np.zeros(len(x))), y)}
+    detail = None
+    for k, ref in (("fx_kw", "fx"), ("Tf", "ay"), ("g", "ay")):
+        if not same_vec(o[k], o[ref], True):
+            detail = "with the forward argument named %r: %s = %s but %s = %s" % (nm, k, o[k], ref, o[ref])
+    if isinstance(o["fx"], list) and isinstance(o["ay"], list) and ip(o["fx"], y) != ip(x, o["ay"]):
+        detail = "with the forward argument named %r: <A x, y> != <x, A* y>" % nm
+    ev = lambda v: enc_opt(v if isinstance(v, list) else None, enc_vec)
+    expr = ("check_forward 0%%Q %s %s %s && check_forward 0%%Q %s %s %s && check_adjoint 0%%Q %s %s %s && check_get_matrix 0%%Q %s %s && check_gradient 0%%Q None false %s (V1 %s) %s"
+            % (m.coq, enc_vec(x), ev(o["fx"]), m.coq, enc_vec(x), ev(o["fx_kw"]), m.coq, enc_vec(y), ev(o["ay"]), m.coq, enc_opt(o["G"], enc_mat), m.coq, enc_vec(y), ev(o["g"])))
+    cases = [Case(expr=expr, meta=meta, cell=cell, kind="EXACT")]
+    if detail:
+        cases.append(Case(expr="true", meta=dict(meta, verdict="oracle"), cell="oracle-verdict/" + cell, trivial=True, impl_fail=detail, signature="LinearModel|argument-name:" + nm))
+    return cases
+
+
+def defaults_cases(rng):
+    """the shipped defaults of every linear test problem x boundary condition: inner-product identity on the implementation alone"""
+    import cuqi
+    from cuqi.testproblem import Deconvolution1D, Deconvolution2D, Abel1D
+    out = []
+    confs = [("Deconvolution2D", lambda bc=bc: Deconvolution2D(BC=bc), {"tp": "deconv2d", "dim": 128, "PSF": "gauss", "PSF_size": 21, "PSF_param": 2.56, "BC": bc}) for bc in BC2]
+    confs += [("Deconvolution1D", lambda bc=bc: Deconvolution1D(BC=bc), {"tp": "deconv1d", "dim": 128, "PSF": "gauss", "BC": bc}) for bc in BC1]
+    confs += [("Abel1D", lambda: Abel1D(), {"tp": "abel", "dim": 128})]
+    for name, build, spec in confs:
+        meta = {"op": "defaults", "model": spec}
+        cell = "defaults/%s/%s" % (name, spec.get("BC", "-"))
+        try:
+            with warnings.catch_warnings():
+                warnings.simplefilter("ignore")
+                tp = build()
+            mod = tp.model
+            n, k = mod.domain_dim, mod.range_dim
+            x, y = [rng.randint(-3, 3) for _ in range(n)], [rng.randint(-3, 3) for _ in range(k)]
+            fx, ay = call_vec(mod.forward, x), call_vec(mod.adjoint, y)
+            detail, sig = None, ""
+            if not isinstance(fx, list) or not isinstance(ay, list):
+                detail, sig = "forward or adjoint of the default %s fails" % name, "defaults|" + name
+            else:
+                a, b = float(np.dot(fx, y)), float(np.dot(x, ay))
+                if abs(a - b) > 1e-9 * (1 + abs(a) + abs(b)):
+                    detail = "default %s(BC=%s): <A x, y> = %r but <x, A* y> = %r" % (name, spec.get("BC"), a, b)
+                    if name == "Deconvolution2D":
+                        pad = BC2[spec["BC"]][0]
+                        sig = ("_proj_backward_2D|pad:symmetric,mirror-symmetric-odd-PSF" if pad == "symmetric" else
+                               "_proj_backward_2D|pad:%s" % pad if pad in ("edge", "reflect") else "_proj_backward_2D|pad:%s,odd-PSF" % pad)
+                    else:
+                        sig = "defaults|" + name
+            out.append(Case(expr="true", meta=meta, cell=cell, kind="DECISION", impl_fail=detail, signature=sig))
+        except Exception as e:
+            out.append(Case(expr="false", meta=dict(meta, crashed=repr(e)[:300]), cell=cell, kind="DECISION"))
+    return out
 
 
 @guarded
@@ -1284,6 +1481,47 @@ def run(ctx):
         cases.extend(reassign_case({"op": "gm_reassign", "model": {"backing": "function", "A": rmat(rng, 3, 4), "D": Ds, "R": ["int", 3]}, "D2": Ds2,
                                     "x": rvec(rng, 4), "y": rvec(rng, 3)}, "reassigned-geometry/%s->%s" % (mk_geom(Ds).family, mk_geom(Ds2).family)))
 
+    # ---- 2j. round-4 lessons ---------------------------------------------------------------------------------------------------
+    # L18 exact zeros inside otherwise generic data: a zero column and a zero row, zeros inside x and y
+    for backing in ("dense", "csc", "function"):
+        for op in OPS:
+            A = rmat(rng, 3, 4)
+            for i in range(3):
+                A[i][1] = 0
+            A[2] = [0, 0, 0, 0]
+            x = rvec(rng, 4); x[0] = 0; x[2] = 0
+            y = rvec(rng, 3); y[1] = 0
+            add({"backing": backing, "A": A, "D": ["cont1d", 4], "R": ["discrete", 3]}, op, x, y, "exact-zeros/%s/%s" % (backing, op))
+    # L26 large offsets next to small entries (any relative tolerance in a place that must be exact shows): still exact in binary64
+    for backing in ("dense", "csr", "function"):
+        for op in OPS:
+            A = [[(2 ** 24) * rng.randint(1, 3) if (i + j) % 2 == 0 else rng.randint(-3, 3) for j in range(3)] for i in range(2)]
+            add({"backing": backing, "A": A, "D": ["cont1d", 3], "R": ["int", 2]}, op, [2 ** 16 + v for v in rvec(rng, 3)], [rvec(rng, 1)[0], 2 ** 16 + 1],
+                "mixed-magnitude/%s/%s" % (backing, op))
+    # L19 a callable that fills and returns one pre-allocated work buffer at every call
+    for (nr, nc, Ds, Rs) in [(2, 3, ["int", 3], ["cont1d", 2]), (3, 3, ["discrete", 3], ["image_visual", 1, 3])]:
+        for op in OPS:
+            for _ in range(1 if op != "fa" else reps):
+                Mw = rmat(rng, nr, nc)
+                add({"backing": "function", "impl": "workbuffer", "n": nc, "par": Mw, "A": Mw, "D": Ds, "R": Rs}, op, rvec(rng, nc), rvec(rng, nr), "function-view/workbuffer/%s" % op)
+    # L23 user subclasses of the library's geometries on either side (exact-type tests in the code must not change the maps)
+    for (backing, Ds, Rs, nr, nc) in [("dense", ["sub1d", 3], ["int", 2], 2, 3), ("function", ["cont1d", 3], ["sub1d", 2], 2, 3), ("csc", ["sub1d", 2], ["sub1d", 2], 2, 2),
+                                      ("function", ["subimage", 2, 2, "F"], ["subimage", 2, 1, "C"], 2, 4)]:
+        for op in OPS:
+            add({"backing": backing, "A": rmat(rng, nr, nc), "D": Ds, "R": Rs}, op, rvec(rng, nc), rvec(rng, nr), "subclass-geometry/%s/%s" % (backing, op))
+    # L17 the callable's argument named like arguments / attributes of the model's own methods
+    for nm in ("y", "wrt", "direction", "geometry", "func", "is_par_"):
+        A = rmat(rng, 2, 3)
+        cases.extend(argname_case({"op": "argname", "name": nm, "model": {"backing": "function", "A": A, "D": ["cont1d", 3], "R": ["int", 2]}, "x": rvec(rng, 3), "y": rvec(rng, 2)},
+                                  "argument-name/" + nm))
+    # L20 integer-dtype custom PSFs ; L21 one-step / one-mode expansions are in the expansion section below, Defocus with PSF_param = 0 here
+    for bc in ("periodic", "neumann", "zero"):
+        add({"tp": "deconv2d", "dim": 4, "PSF": [[1, 0, 2], [0, 3, 1], [1, 1, 0]], "BC": bc, "psf_dtype": "int"}, "fa", rvec(rng, 16), rvec(rng, 16), "Deconvolution2D/%s/int-dtype-PSF/fa" % bc)
+        add({"tp": "deconv1d", "dim": 5, "PSF": [1, 2, 3], "BC": bc if bc != "neumann" else "reflect", "psf_dtype": "int"}, "fa", rvec(rng, 5), rvec(rng, 5), "Deconvolution1D/%s/int-dtype-PSF/fa" % bc)
+        add({"tp": "deconv2d", "dim": 4, "PSF": "defocus", "PSF_param": 0, "PSF_size": 3, "BC": bc}, "fa", rvec(rng, 16), rvec(rng, 16), "Deconvolution2D/%s/defocus-param0/fa" % bc)
+    # L22 the SHIPPED DEFAULTS (dim=128, Gauss PSF of size 21 resp. dim): too large for the model, so oracle only
+    cases.extend(defaults_cases(rng))
+
     # ---- 2f. gradient of the LinearModel (= adjoint for identity-type geometries, refused for the others, chain rule through a
     #          user geometry that brings its own gradient) -------------------------------------------------------------
     grad_models = [("dense", ["cont1d", 3], ["int", 2]), ("csr", ["discrete", 2], ["cont1d", 3]), ("function", ["int", 3], ["discrete", 3]),
@@ -1322,7 +1560,7 @@ def run(ctx):
 
     # ---- 3. expansions and mapped geometries (non-orthogonal maps), both backings, domain and range side --------
     exp_specs = [["step", 6, 3, "max"], ["step", 5, 2, "min"], ["step", 3, 3, "max"], ["step", 6, 3], ["step", 4, 2], ["step", 8, 4], ["step", 7, 3], ["step", 5, 2], ["step", 3, 3], ["step", 9, 2],
-                 ["kl", 6, None, 2.5, 12.0], ["kl", 5, 3, 1.5, 2.0], ["kl", 4, 4, 1.0, 1.0], ["kl", 4, 7, 2.0, 3.0],
+                 ["step", 4, 1], ["kl", 4, 1, 1.0, 1.0], ["kl", 6, None, 2.5, 12.0], ["kl", 5, 3, 1.5, 2.0], ["kl", 4, 4, 1.0, 1.0], ["kl", 4, 7, 2.0, 3.0],
                  ["mapped", 2, 1, ["cont1d", 3]], ["mapped", 1, 4, ["discrete", 4]], ["mapped", -1, 1, ["cont1d", 3]],
                  ["mapped", 1, 1, ["cont1d", 4]], ["mapped", 2, 1, ["step", 6, 3]], ["mapped", 4, 1, ["image", 2, 2, "F"]]]
     for es in exp_specs:
